@@ -69,6 +69,7 @@ type c20Params struct {
 	fork      bool   // the destination's existing content differs from the source at one index (inconsistent histories)
 	proofMode string // "ok", "bad" (corrupted proof), "err" (HTTP 500)
 	lag       bool   // the destination integrates lazily: its tree size trails the stored prefix
+	lagN      int    // >0: the signed root is republished only on every (lagN+1)-th request (1000: never during the scenario)
 	errPct    int
 	shortPct  int
 	quotaPct  int // share of AddSequencedLeaves answers that are ResourceExhausted (runs of up to 3)
@@ -83,8 +84,8 @@ func (p *c20Params) String() string {
 	for _, x := range p.growth {
 		g += fmt.Sprintf("+%v:%d", x.at, x.size)
 	}
-	return fmt.Sprintf("%s mode=%s cont=%v cfg=[%d,%d) batch=%d fetchers=%d submitters=%d chan=%d nocheck=%v idfunc=%v size0=%d growth=%s dest0=%d fork=%v proof=%s lag=%v err=%d%% short=%d%% quota=%d%% fatalAt=%d cancel=%v stopAfter=%v loss=%v seed=%d fseed=%d",
-		p.id, p.mode, p.cont, p.cfgStart, p.cfgEnd, p.batch, p.fetchers, p.submit, p.chanSize, p.noCheck, p.idFunc, p.size0, g, p.dest0, p.fork, p.proofMode, p.lag, p.errPct, p.shortPct, p.quotaPct, p.fatalAt, p.cancelAt, p.stopAfter, p.lossAt, p.seed, p.fseed)
+	return fmt.Sprintf("%s mode=%s cont=%v cfg=[%d,%d) batch=%d fetchers=%d submitters=%d chan=%d nocheck=%v idfunc=%v size0=%d growth=%s dest0=%d fork=%v proof=%s lag=%v/%d err=%d%% short=%d%% quota=%d%% fatalAt=%d cancel=%v stopAfter=%v loss=%v seed=%d fseed=%d",
+		p.id, p.mode, p.cont, p.cfgStart, p.cfgEnd, p.batch, p.fetchers, p.submit, p.chanSize, p.noCheck, p.idFunc, p.size0, g, p.dest0, p.fork, p.proofMode, p.lag, p.lagN, p.errPct, p.shortPct, p.quotaPct, p.fatalAt, p.cancelAt, p.stopAfter, p.lossAt, p.seed, p.fseed)
 }
 
 func c20Hash(a, b, c, d uint64) uint64 {
@@ -118,6 +119,7 @@ type c20World struct {
 	quotaRun  map[[2]int64]int
 	quotaSeen map[[2]int64]bool
 	quotaOpen map[[2]int64]bool // a quota reply for this batch has not been followed by a retry yet
+	ackedNow  map[int64]bool    // indices stored by an AddSequencedLeaves of this scenario
 	disturbed bool              // cancellation, mastership loss or a scripted fatal error happened (a back-off may legitimately be cut short)
 	rootCalls int
 
@@ -309,6 +311,10 @@ func (w *c20World) getRoot(_ *trillian.GetLatestSignedLogRootRequest) (*trillian
 	pre := w.prefix()
 	if !w.p.lag {
 		w.dsize = pre
+	} else if w.p.lagN > 0 {
+		if n%(w.p.lagN+1) == w.p.lagN {
+			w.dsize = pre
+		}
 	} else if pre > w.dsize {
 		w.dsize += int64(h>>20) % (pre - w.dsize + 1)
 	}
@@ -407,6 +413,12 @@ func (w *c20World) addLeaves(req *trillian.AddSequencedLeavesRequest) (*trillian
 	w.quotaRun[key] = 0
 	rsp := &trillian.AddSequencedLeavesResponse{}
 	for _, l := range req.Leaves {
+		if w.ackedNow[l.LeafIndex] && w.p.mode == "run" {
+			// one Controller.Run: its position only moves forward, so no index is submitted (successfully) twice, however far
+			// the destination's signed root lags behind what it has stored
+			w.failf("resubmitted", "index %d submitted again within one Run (batch [%d,%d)): the pass did not start where the previous one stopped", l.LeafIndex, start, start+k)
+		}
+		w.ackedNow[l.LeafIndex] = true
 		st := status.New(codes.OK, "").Proto()
 		if old, ok := w.leaves[l.LeafIndex]; ok {
 			if !bytes.Equal(old.LeafValue, l.LeafValue) || !bytes.Equal(old.ExtraData, l.ExtraData) || !bytes.Equal(old.LeafIdentityHash, l.LeafIdentityHash) {
@@ -502,7 +514,7 @@ func (f c20Factory) NewElection(ctx context.Context, id string) (election2.Elect
 func c20Run(out *verifkit.Out, p *c20Params) {
 	src := verifkit.NewSrcLog(p.seed, false)
 	w := &c20World{out: out, p: p, src: src, size: p.size0, maxSize: p.size0, attempts: map[[2]int64]int{}, errRun: map[[2]int64]int{},
-		leaves: map[int64]*trillian.LogLeaf{}, quotaRun: map[[2]int64]int{}, quotaSeen: map[[2]int64]bool{}, quotaOpen: map[[2]int64]bool{}}
+		leaves: map[int64]*trillian.LogLeaf{}, quotaRun: map[[2]int64]int{}, quotaSeen: map[[2]int64]bool{}, quotaOpen: map[[2]int64]bool{}, ackedNow: map[int64]bool{}}
 	for _, g := range p.growth {
 		if g.size > w.maxSize {
 			w.maxSize = g.size
@@ -713,6 +725,9 @@ func c20Gen(r *verifkit.Rand, it int) *c20Params {
 	p.shortPct = c20Pick(r, 0, 30, 100)
 	p.quotaPct = c20Pick(r, 0, 0, 20, 50)
 	p.lag = r.Intn(3) == 0
+	if p.lag && r.Bool() {
+		p.lagN = c20Pick(r, 1, 2, 5, 1000)
+	}
 	// destination state: empty, partial, full
 	switch r.Intn(4) {
 	case 0:
@@ -802,6 +817,10 @@ func TestVerifC20(t *testing.T) {
 		{id: "f7", mode: "run", proofMode: "ok", cfgStart: -1, size0: 30, batch: 4, fetchers: 2, submit: 2, idFunc: cd, seed: 10, fatalAt: 3},
 		{id: "f8", mode: "run", proofMode: "ok", cfgStart: -1, cont: true, size0: 12, batch: 5, fetchers: 2, submit: 2, idFunc: cd, seed: 11, lag: true,
 			growth: []c20Growth{{40 * time.Second, 30}, {3 * time.Minute, 31}}, stopAfter: 30 * time.Minute},
+		{id: "l0", mode: "run", proofMode: "ok", cfgStart: -1, cont: true, size0: 4, batch: 10, fetchers: 1, submit: 1, idFunc: cd, seed: 13, lag: true, lagN: 1000,
+			growth: []c20Growth{{40 * time.Second, 6}, {3 * time.Minute, 9}}, stopAfter: 10 * time.Minute},
+		{id: "l1", mode: "run", proofMode: "ok", cfgStart: -1, cont: true, size0: 30, dest0: 7, batch: 4, fetchers: 2, submit: 2, idFunc: li, seed: 14, lag: true, lagN: 2, shortPct: 30,
+			growth: []c20Growth{{50 * time.Second, 41}, {2 * time.Minute, 42}, {4 * time.Minute, 80}}, stopAfter: 15 * time.Minute},
 		{id: "f9", mode: "master", proofMode: "ok", cfgStart: -1, cont: true, size0: 25, batch: 3, fetchers: 1, submit: 1, idFunc: li, seed: 12, shortPct: 100,
 			growth: []c20Growth{{time.Minute, 60}}, lossAt: []time.Duration{2 * time.Second, 30 * time.Second}, cancelAt: 40 * time.Minute},
 	}
